@@ -630,6 +630,11 @@ func (hp *HTTPProxy) isLocalhost(host string) bool {
 }
 
 func (hp *HTTPProxy) setBasicAuth(req *http.Request) error {
+	// A CONNECT request is addressed to the next proxy hop, not to the origin:
+	// site credentials do not belong there.
+	if req.Method == http.MethodConnect {
+		return nil
+	}
 	if req.Header.Get("Authorization") == "" {
 		if u := hp.creds.MatchURL(req.URL); u != nil {
 			p, _ := u.Password()
